@@ -19,7 +19,7 @@ RULE = ("seeded random expression trees (depth <= 5) over the documented grammar
         "(d/dt * x and x' notations); all must equal the independent AST evaluation (float64, cross-checked with 40-digit mpmath; "
         "ill-conditioned trees discarded); non-trivial = tree has >= 4 nodes; distinct = distinct tree hash")
 DECIDING = ['eval_node_values', 'generated_function_values', 'spellings_compared', 'index_expressions', 'ddt_notation', 'prime_notation',
-            'hostile_names', 'rewritten_variable_values', 'derived_label_neighbour_values', 'index_expressions_generated', 'literal_equations', 'shared_negated_sums']
+            'hostile_names', 'rewritten_variable_values', 'derived_label_neighbour_values', 'index_expressions_generated', 'literal_equations', 'shared_negated_sums', 'symbolic_power_values']
 ASSUMPTIONS = ['sigmoid is the logistic function, maxi/mini are element-wise maximum/minimum', 'argument domains are kept safe by construction',
                'ill-conditioned expressions (float64 vs mpmath differ by more than 1e-11 relative) are discarded']
 CASE_TIMEOUT = 240
@@ -401,6 +401,9 @@ def run_case(case, ctx):
                 msg = literal_equation_checks(rnd, mech)
                 if msg:
                     raise observe.Mismatch(msg)
+            msg = symbolic_power_sequence(rnd, mech)
+            if msg:
+                raise observe.Mismatch(msg)
         res.update(status='ok', symptom='', mech=mech, sample={'expressions': samples})
     except observe.Mismatch as ex:
         s = str(ex)
@@ -455,6 +458,39 @@ def index_checks(rnd, mech, only_negated=False):
         if not abs(got - float(exp)) <= 1e-9 * max(1.0, abs(float(exp))):
             return f"generated function gives {got!r} for {s!r}, numpy indexing gives {float(exp)!r}"
         mech['index_expressions_generated'] = mech.get('index_expressions_generated', 0) + 1
+    return None
+
+
+def symbolic_power_sequence(rnd, mech):
+    """Powers with a symbolic exponent (^ and **), written for several related equations that are evaluated one after the other
+    in this process: the same base with exponents that are sums of different length, bases / exponents swapped, short and long
+    variable names.  Both evaluation paths, each against direct arithmetic."""
+    long_names = rnd.sample(['weight', 'r_in0', 'x_v1', 'm_in2', 'tau_x'], 2)
+    short = rnd.sample(['a', 'b', 'c', 'k', 'r'], 3)
+    A, L2 = long_names
+    b, c, d = short
+    vals = {A: round(rnd.uniform(1.1, 2.0), 4), L2: round(rnd.uniform(0.2, 0.9), 4), b: round(rnd.uniform(0.2, 0.9), 4),
+            c: round(rnd.uniform(0.2, 0.9), 4), d: round(rnd.uniform(1.1, 1.9), 4)}
+    v = vals
+    eqs = [(f"{A}^({b}+{c})", v[A] ** (v[b] + v[c])),
+           (f"{A}^({b}+{c}+{L2})", v[A] ** (v[b] + v[c] + v[L2])),
+           (f"{d}**({b} + {L2})", v[d] ** (v[b] + v[L2])),
+           (f"({b}+{c}+{L2})^{d}", (v[b] + v[c] + v[L2]) ** v[d]),
+           (f"({b}+{c})**{A}", (v[b] + v[c]) ** v[A]),
+           (f"{d}^{b} - {b}^{d}", v[d] ** v[b] - v[b] ** v[d]),
+           (f"{A}**({c}*{L2}) + {L2}**({c}*{A})", v[A] ** (v[c] * v[L2]) + v[L2] ** (v[c] * v[A]))]
+    rnd.shuffle(eqs)
+    for text, exp in eqs:
+        for path in ('eval_node', 'generated'):
+            try:
+                got = float(np.asarray(eval_node_path(text, vals)).ravel()[0]) if path == 'eval_node' else \
+                    generated_path(text, vals, rnd.choice(['ddt', 'prime']))
+            except Exception as ex:
+                return f"loud: {path} path raised {type(ex).__name__}: {ex} for {text!r} (values {vals})"
+            mech['symbolic_power_values'] = mech.get('symbolic_power_values', 0) + 1
+            if not abs(got - exp) <= 1e-10 * max(1.0, abs(exp)):
+                return (f"{path} path gives {got!r} for {text!r}, its arithmetic value is {exp!r} (values {vals}; evaluated after "
+                        f"{[t_ for t_, _ in eqs[:eqs.index((text, exp))]]} in this process)")
     return None
 
 
